@@ -456,6 +456,15 @@ def _int_capable_array(f: FuncInfo, name_node: ast.Name, at: ast.AST, depth: int
         return None
     d = _single_def(f, name_node.id)
     if d is None:
+        # several bindings: the one that reaches this use (structured reaching definitions within the function)
+        from ..flow import reaching_def
+        try:
+            rd = reaching_def(f.node, at, name_node.id)
+        except Exception:
+            rd = None
+        if rd is not None and rd[2] == "assign" and rd[1] is not None:
+            d = (f, rd[1])
+    if d is None:
         return None
     scope, v = d
     if isinstance(v, ast.Assign):
